@@ -8,7 +8,10 @@ use vaporetto_rules::{
 
 const TEXTS: &[&str] = &["12a34あ5", "ab12cd", "アイ1ウ漢字", "1\r\n2\n3\r4", "a\u{1f468}\u{200d}\u{1f469}b\u{1f44f}\u{1f3fd}", "\n", "x",
     "前の行\n", "a\r\n", "\ra", "行\nx", "Vaporetto", "2021", "a\u{915}\u{93e}", "\u{e01}\u{e33}だ", "\u{600}12", "e\u{301}x", "\u{1f1ef}\u{1f1f5}a",
-    "\u{1f1ef}\u{1f1f5}\u{1f1fa}\u{1f1f8}\u{1f1eb}", "\u{1100}\u{1161}\u{11a8}a", "a\r\n\r\nb", "\r\n"];
+    "\u{1f1ef}\u{1f1f5}\u{1f1fa}\u{1f1f8}\u{1f1eb}", "\u{1100}\u{1161}\u{11a8}a", "a\r\n\r\nb", "\r\n",
+    // other characters that end a line in some conventions (VT, FF, NEL, LS, PS) and characters whose low byte is CR / LF:
+    // the rule names CR and LF only
+    "ab\u{2028}cd", "a\u{b}b\u{c}c", "x\u{85}y\u{2029}z", "上\u{300a}不\u{300d}", "\u{ff0d}a\u{10a}"];
 // known answers for extended grapheme clusters (UAX #29): (text, boundary index that lies INSIDE a cluster)
 const INSIDE_CLUSTER: &[(&str, usize)] = &[("a\u{915}\u{93e}", 1), ("\u{e01}\u{e33}だ", 0), ("\u{600}12", 0), ("e\u{301}x", 0), ("\u{1f1ef}\u{1f1f5}a", 0),
     ("a\u{1f468}\u{200d}\u{1f469}b\u{1f44f}\u{1f3fd}", 1), ("a\u{1f468}\u{200d}\u{1f469}b\u{1f44f}\u{1f3fd}", 2), ("a\u{1f468}\u{200d}\u{1f469}b\u{1f44f}\u{1f3fd}", 5),
